@@ -137,6 +137,10 @@ def prop(spec, rec):
             else:
                 require(False, "reset_over_capacity", "reset(%r) above capacity %r did not raise" % (x, cap))
         labels.add("reset_value")
+        # reset(x) is a one-off: a later plain reset() goes back to the constructed initial charge
+        b.charge(max(pilot, 1.0), V, T)
+        b.reset()
+        require(stored_charge(b) == spec["init"] and b.current_charging_power == 0, "reset_after_reset_value", lambda: "reset() after reset(%r) left charge %r, constructed initial charge %r" % (x, stored_charge(b), spec["init"]))
 
     # 5. cross-check of the oracle itself against numerical integration (sampled)
     if spec["model"] == "cont" and spec.get("rk4") and pilot > 0:
